@@ -31,7 +31,8 @@ Proof.
     replace st1 with (fst (organize e (fun d => isdel (get (autobegin st) d)) (autobegin st) (all_idx (autobegin st))))
       by (rewrite Eo; reflexivity).
     rewrite organize_tx. fold (is_deact (autobegin st)). rewrite Ed. rewrite autobegin_deact in Ed. auto.
-  - apply flush_db_fail in Ef. destruct (restore_snapshot _). simpl. intro. congruence.
+  - apply flush_db_fail in Ef. destruct (restore_snapshot _) as [s2 c2]. simpl.
+    destruct (Z.eqb_spec c2 0); intro; congruence.
 Qed.
 
 (* ---- commit ------------------------------------------------------------------------------------------- *)
